@@ -69,6 +69,15 @@ const SHAPES: &[&str] = &[
     " <div>\nW\n</div>\n",
     "W\n===\nW\n---\n",
     "* * *\n- - -\n",
+    // an item that starts with a nested list whose own item holds several blocks, and then goes on
+    "- - W\n\n    W\n\n    W\n\n    W\n\n  W\n",
+    "- - W\n\n    W\n\n    W\n\n    > # W\n\n  W\n",
+    "1. - W\n\n     W\n\n     ```\n     W\n     ```\n\n     W\n\n     W\n\n   W\n",
+    // nested-list-first items whose nested list mixes empty and non-empty items
+    "- - W\n  -\n",
+    "1. 1. W\n   2.\n   3. W\n",
+    "- -\n  - W\n",
+    "> - - W\n>   -\n",
 ];
 
 pub fn shapes(rng: &mut Rng, max: usize) -> String {
